@@ -435,6 +435,7 @@ class ShardedFileAccessor(neuroglancer_scripts.accessor.Accessor,
             fp.write(buf)
 
     def fetch_chunk(self, key, chunk_coords):
+        self._file_path(key)  # the scale directory must be under base_dir
         if key not in self.ro_shard_dict:
             sharding = self.get_sharding_spec(key)
             chunk_sizes, = self.get_scale(key).get("chunk_sizes", [[]])
@@ -474,6 +475,7 @@ class ShardedFileAccessor(neuroglancer_scripts.accessor.Accessor,
             raise ShardedIOError from e
 
     def store_chunk(self, buf, key, chunk_coords, **kwargs):
+        self._file_path(key)  # the scale directory must be under base_dir
         if key not in self.shard_dict:
             shard_volume_spec, shard_spec = self.get_volume_shard_spec(key)
 
